@@ -1864,7 +1864,8 @@ class SolidityStorage(Storage):
             base = loc.arg(0)
             return cls.decode(ex, base) + (Z3_ZERO,)
         # m[k] : hash(k.m)  where |k| != 256-bit
-        elif is_f_sha3_name(loc.decl().name()):
+        # note: the hash of empty data (f_sha3_0) is a constant with no argument to decode
+        elif is_f_sha3_name(loc.decl().name()) and loc.num_args() > 0:
             sha3_input = normalize(loc.arg(0))
             if sha3_input.decl().name() == "concat" and sha3_input.num_args() == 2:
                 offset = simplify(sha3_input.arg(0))
@@ -1994,7 +1995,8 @@ class GenericStorage(Storage):
             hi = cls.decode(ex, simplify(Extract(511, 256, args)))
             lo = cls.decode(ex, simplify(Extract(255, 0, args)))
             return cls.simple_hash(Concat(hi, lo))
-        elif is_f_sha3_name(loc.decl().name()):
+        # note: the hash of empty data (f_sha3_0) is a constant with no argument to decode
+        elif is_f_sha3_name(loc.decl().name()) and loc.num_args() > 0:
             sha3_input = normalize(loc.arg(0))
             if sha3_input.decl().name() == "concat":
                 decoded_sha3_input_args = [
